@@ -43,6 +43,9 @@ print(t, r, o, n, typed)
 local imp = import("other.lua")
 print(imp.nothing)
 if not y then print(y.z) end
+---@class
+local CA = {}
+print(CA)
 `
 
 var c17Files = map[string]string{
